@@ -80,6 +80,43 @@ AnyTie(g)      == \E k \in 1..Len(g) : g[k].tie
 AnyZero(g)     == \E k \in 1..Len(g) : g[k].n2 = 0
 
 (***************************************************************************)
+(* Scale: a translation-invariant configuration.  On a full lattice        *)
+(* n_1 x .. x n_d (spacing a, every n_k odd: no half-cell tie) of ONE      *)
+(* species in an orthogonal, fully periodic cell the pair (i, j) has the    *)
+(* geometry of the pair (1, j') whose index difference is the same          *)
+(* (LatticeTranslation, checked by TLC on small lattices in MC_Hessian), so *)
+(* the whole matrix is determined by the row of particle 1: block (i, j) =  *)
+(* -K(delta_ij)/m, block (i, i) = sum_delta K(delta)/m.  GeoOne is linear   *)
+(* in N; the trace specification prints the table delta -> block terms and *)
+(* the harness places the blocks by index arithmetic.                       *)
+(***************************************************************************)
+LatIdx(rec, i)      == [k \in 1..rec.dim |-> rec.pos[i][k] \div rec.lat.a]
+LatDelta(rec, i, j) == [k \in 1..rec.dim |-> (LatIdx(rec, j)[k] - LatIdx(rec, i)[k]) % rec.lat.n[k]]
+LatSitesH(n, a) ==
+  IF Len(n) = 2 THEN {<<a * i, a * j>> : i \in 0..(n[1] - 1), j \in 0..(n[2] - 1)}
+  ELSE {<<a * i, a * j, a * k>> : i \in 0..(n[1] - 1), j \in 0..(n[2] - 1), k \in 0..(n[3] - 1)}
+IsHessLattice(rec) ==
+  /\ "lat" \in DOMAIN rec /\ Len(rec.lat.n) = rec.dim /\ Len(rec.mroot) = 1
+  /\ \A k \in 1..rec.dim : rec.ppp[k] = 1 /\ rec.lat.n[k] % 2 = 1 /\
+                              \A j \in 1..rec.dim : rec.H[k][j] = (IF j = k THEN rec.lat.n[k] * rec.lat.a ELSE 0)
+  /\ \A i \in 1..Len(rec.typ) : rec.typ[i] = 1
+  /\ Len(rec.pos) = ProdSeq(rec.lat.n) /\ {rec.pos[i] : i \in 1..Len(rec.pos)} = LatSitesH(rec.lat.n, rec.lat.a)
+\* the geometry of the pairs (1, j), j = 2..N, as GeoOf gives it for them
+GeoOne(c) ==
+  [k \in 1..(NPart(c) - 1) |->
+     LET j   == k + 1
+         d   == Disp(c, 1, j)
+         cmp == CmpCut(Norm2(d), c.S, c.rc[c.typ[1]][c.typ[j]])
+     IN  [i |-> 1, j |-> j, d |-> d, n2 |-> Norm2(d), tie |-> PairTie(c, 1, j), inter |-> cmp <= 0, edge |-> cmp = 0]]
+\* translation invariance: every pair has the geometry of the pair (1, j') with the same index difference
+LatticeTranslation(rec, c) ==
+  \A i, j \in 1..NPart(c) : i # j =>
+     LET jp == CHOOSE x \in 1..NPart(c) : LatDelta(rec, 1, x) = LatDelta(rec, i, j) IN
+     /\ Disp(c, i, j) = Disp(c, 1, jp)
+     /\ CmpCut(Norm2(Disp(c, i, j)), c.S, c.rc[1][1]) = CmpCut(Norm2(Disp(c, 1, jp)), c.S, c.rc[1][1])
+     /\ ~PairTie(c, i, j)
+
+(***************************************************************************)
 (* Assembly state machine over formal block symbols                        *)
 (***************************************************************************)
 Mu(c, i)   == c.mroot[c.typ[i]]
